@@ -213,7 +213,7 @@ addenda11 = {'C03': ' Drop(0, l) and DropLast(0, l) return l.',
  'C04': ' A result may be the receiver itself but not an argument (result-is-the-argument).',
  'C07': ' Several goroutines Poll at once on 0, 1 and 2 queued values (ChannelQueue and BufferedChannelQueue): nobody blocks, every value goes to one of them.',
  'C08': ' A ConcurrentQueue over a BufferedChannelQueue: three values put, three taken in order.',
- 'C09': ' A panic handler that schedules a follow-up job on its own pool and waits until it has started.',
+ 'C09': ' A panic handler that schedules a follow-up job on its own pool and waits until it has started; ScheduleWithTimeout with timeouts 0, 1 ns, 2 ns and negative on a full queue.',
  'C11': ' Handlers set and then reset to nil (ObserveOn(nil) / SubscribeOn(nil)).',
  'C12': ' An actor that closes itself from its effect while other senders are submitting.',
  'C14': ' Targets started only after 2, 6 and 7 requests are queued; YieldFromIO of IOs carrying the payload table (nil, typed nil, zero values), with and without an observe handler.',
